@@ -250,6 +250,14 @@ def write_table_hdf5(
                 table.meta,
                 metadata_conflicts=metadata_conflicts,
             )
+            # merge() reads a None on its right-hand side as "unspecified": a
+            # table without, e.g., a reference epoch must not be taken into a
+            # file that has one, so compare the other way round as well
+            metadata.merge(
+                table.meta,
+                existing_header["meta"],
+                metadata_conflicts=metadata_conflicts,
+            )
         except metadata.MergeConflictError:
             raise metadata.MergeConflictError(
                 "Cannot append table to existing file because "
